@@ -21,9 +21,22 @@ import Driver.PuzSimpleloop
 import Driver.PuzMasyu
 import Driver.PuzGeradeweg
 import Driver.PuzYajilin
+import Driver.PuzCreek
+import Driver.PuzGokigen
+import Driver.PuzNurimisaki
+import Driver.PuzLits
+import Driver.PuzHeyawake
+import Driver.PuzView
+import Driver.PuzNurikabe
+import Driver.PuzCompass
+import Driver.PuzFillomino
+import Driver.PuzFivecells
+import Driver.PuzYinyang
+import Driver.PuzCastleWall
+import Driver.PuzShakashaka
 open Cspuz Cspuz.Drv
 
-def handlers : List (Sexp → Option Sexp) := [handleC13, handleGraph, handleCore, handleC18, handleC14, handleC15, handleC12, handleC19, handleC20, handleC03, handlePuzSudoku, handlePuzStarBattle, handlePuzPutteria, handlePuzNorinori, handlePuzAkari, handlePuzAquarium, handlePuzBuilding, handlePuzDoppelblock, handlePuzSlitherlink, handlePuzSimpleloop, handlePuzMasyu, handlePuzGeradeweg, handlePuzYajilin]
+def handlers : List (Sexp → Option Sexp) := [handleC13, handleGraph, handleCore, handleC18, handleC14, handleC15, handleC12, handleC19, handleC20, handleC03, handlePuzSudoku, handlePuzStarBattle, handlePuzPutteria, handlePuzNorinori, handlePuzAkari, handlePuzAquarium, handlePuzBuilding, handlePuzDoppelblock, handlePuzSlitherlink, handlePuzSimpleloop, handlePuzMasyu, handlePuzGeradeweg, handlePuzYajilin, handlePuzCreek, handlePuzGokigen, handlePuzNurimisaki, handlePuzLits, handlePuzHeyawake, handlePuzView, handlePuzNurikabe, handlePuzCompass, handlePuzFillomino, handlePuzFivecells, handlePuzYinyang, handlePuzCastleWall, handlePuzShakashaka]
 
 def handle (s : Sexp) : Sexp :=
   match s with
